@@ -233,8 +233,12 @@ func (e *Exec) sprintf(fr *frame, format Str, args []Value, strict bool) Str {
 			res = strConcat(res, mkStr(fmt.Sprintf(verbFmt, gv)))
 			continue
 		}
-		// symbolic argument
-		s, ok := e.symVerb(fr, p, a)
+		// symbolic argument (error messages do not format symbolic values: no forks for message text)
+		var s Str
+		ok := false
+		if strict {
+			s, ok = e.symVerb(fr, p, a)
+		}
 		if !ok {
 			if strict {
 				e.unsupported(fr, "fmt verb %s with symbolic %s", p.flags, a.T)
